@@ -1,136 +1,190 @@
 (* C02 — Concurrent logging is exactly-once, mutually exclusive and order-preserving.
    Property theorems only; each is closed by [exact] of a lemma of ConcProofs.v.
 
-   The model (ConcDefs.v) INTERPRETS a locking skeleton; the theorems hold for EVERY skeleton [sk] with
-   [bracketed sk = true], any number n of threads, any number of messages per thread ([quota]) and any
-   schedule.  The two skeletons the code has today — [src_logger_sk] (a call through an installed Logger:
-   Logger::processMessage with OwnThreadHandler::process inlined) and [src_handler_sk] (a bare
-   OwnThreadHandler<Pipeline> in synchronous mode, lock M only) — are translated from /repo on every run
-   into SrcConc.v and must pass [bracketed] by computation (first two obligations below).
-   The same definitions are extracted (coq/extract/Ex_conc.v): the check runs [accept_conc] and
-   [prop_c02_b] on the traces recorded from the real library. *)
+   The model (ConcDefs.v) INTERPRETS locking skeletons.  Every thread t of a run executes its own skeleton [skf t] (its
+   entry point into the logger) once per message.  The theorems hold for EVERY FAMILY [sks] of skeletons with
+   [bracketed_family sks = true] (all members bracketed by one and the same mutex; for the statements about flush():
+   [guarded_family sks = true]), ANY assignment of members to threads ([forall t, In (skf t) sks]), any number n of
+   threads, any number of messages per thread ([quota]) and any schedule.
+   The skeletons the code has today are translated from /repo on every run into SrcConc.v:
+     src_logger_sk        a call through Qt's macros: Logger::processMessage with OwnThreadHandler::process inlined
+     src_handler_sk       a direct call of the public process() (also: a bare OwnThreadHandler<Pipeline>, lock M only)
+     src_logger_fatal_sk  the macro path at fatal level (type == QtFatalMsg: flush() of the sinks)
+   and the obligations (a) say, by computation, exactly which sub-families qualify.
+   The same definitions are extracted (coq/extract/Ex_conc.v): the check runs [accept_conc] and [prop_c02_b] on the traces
+   recorded from the real library. *)
 From Coq Require Import List Arith.
 Import ListNotations.
 Require Import QtlVerif.ConcDefs QtlVerif.ConcProofs QtlVerif.SrcConc.
 
-(* (a) the translated skeletons satisfy the decidable predicate *)
+(* ------------------------------------------------------------------------------------------------------------------
+   (a) what the translated source satisfies *)
 Theorem C02_src_logger_bracketed : bracketed src_logger_sk = true.
 Proof. vm_compute. reflexivity. Qed.
 Print Assumptions C02_src_logger_bracketed.
 Theorem C02_src_handler_bracketed : bracketed src_handler_sk = true.
 Proof. vm_compute. reflexivity. Qed.
 Print Assumptions C02_src_handler_bracketed.
-
-(* ... and a thread running them alone never blocks on itself (needed only to REALISE sequential schedules) *)
-Theorem C02_src_skeletons_solo_ok : solo_ok src_logger_sk = true /\ solo_ok src_handler_sk = true.
-Proof. vm_compute. split; reflexivity. Qed.
+Theorem C02_src_skeletons_solo_ok : forallb solo_ok src_entry_points = true.
+Proof. vm_compute. reflexivity. Qed.
 Print Assumptions C02_src_skeletons_solo_ok.
+(* ALL three entry points are bracketed by one and the same mutex (the handler mutex M): pipeline runs — every handler
+   incl. Sink::send — exclude each other however the threads of a run mix the entry points *)
+Theorem C02_src_entry_points_bracketed_family : bracketed_family src_entry_points = true.
+Proof. vm_compute. reflexivity. Qed.
+Print Assumptions C02_src_entry_points_bracketed_family.
+(* sink-touching instructions INCLUDING flush(): exactly these sub-families are guarded by one mutex —
+   {macro, fatal macro} (Logger mutex L) and {macro, direct process()} (handler mutex M) *)
+Theorem C02_src_macro_paths_guarded_family : guarded_family [src_logger_sk; src_logger_fatal_sk] = true.
+Proof. vm_compute. reflexivity. Qed.
+Print Assumptions C02_src_macro_paths_guarded_family.
+Theorem C02_src_macro_and_direct_guarded_family : guarded_family [src_logger_sk; src_handler_sk] = true.
+Proof. vm_compute. reflexivity. Qed.
+Print Assumptions C02_src_macro_and_direct_guarded_family.
+(* ({direct process(), fatal macro} is NOT: see C02_direct_call_vs_fatal_flush_refuted below; the check reports the value of
+   [guarded_family src_entry_points] in its coverage as static.full_family_guarded.) *)
 
-(* the fatal path of Logger::processMessage (type == QtFatalMsg: SimplePipeline::flush() = Sink::flush of every sink) is
-   bracketed too and its flush() runs while the guarding mutex is still held *)
-Theorem C02_src_logger_fatal_path_guarded : bracketed src_logger_fatal_sk = true /\ sinks_guarded src_logger_fatal_sk = true.
-Proof. vm_compute. split; reflexivity. Qed.
-Print Assumptions C02_src_logger_fatal_path_guarded.
-(* the two entry points of an installed Logger — Qt's macros (Logger::processMessage) and a direct call of the public
-   process() (OwnThreadHandler::process) — are guarded by one and the same mutex.  PARTIAL: the interleaving theorems below
-   are proved for runs in which all threads execute ONE skeleton; for runs mixing the two entry points only this static
-   obligation and the recorded traces (mode "mixed" of h_conc) stand. *)
-Theorem C02_src_entry_points_share_guard : share_guard src_logger_sk src_handler_sk = true /\ share_guard src_logger_fatal_sk src_handler_sk = true.
-Proof. vm_compute. split; reflexivity. Qed.
-Print Assumptions C02_src_entry_points_share_guard.
+(* ------------------------------------------------------------------------------------------------------------------
+   (b) theorems for every bracketed family, any assignment of entry points to threads, any schedule *)
+Section Family.
+Variable sks : list (list instr).
+Variable skf : nat -> list instr.
+Variable quota : nat -> nat.
+Variable n : nat.
+Hypothesis Hfam : bracketed_family sks = true.
+Hypothesis Hasg : forall t, In (skf t) sks.
+Hypothesis Hn : threads_below n quota.
 
 (* 1. no two threads are ever inside the pipeline at the same moment *)
-Theorem C02_mutual_exclusion : forall sk quota n, bracketed sk = true -> threads_below n quota ->
-  forall sched t1 t2, inside (run sk quota s0 sched) t1 = true -> inside (run sk quota s0 sched) t2 = true -> t1 = t2.
-Proof. exact mutual_exclusion. Qed.
-Print Assumptions C02_mutual_exclusion.
+Theorem C02_mutual_exclusion : forall sched t1 t2,
+  inside (run skf quota s0 sched) t1 = true -> inside (run skf quota s0 sched) t2 = true -> t1 = t2.
+Proof. exact (mutual_exclusion skf quota n (fam_guard sks skf Hfam Hasg) Hn). Qed.
 
-(* 1'. ... nor at any instruction that touches the sinks (pipeline run or flush), for every skeleton whose sink-touching
-   instructions all lie inside the critical section of the guard *)
-Theorem C02_sink_exclusion : forall sk quota n, sinks_guarded sk = true -> threads_below n quota ->
-  forall sched t1 t2, at_sink sk (run sk quota s0 sched) t1 = true -> at_sink sk (run sk quota s0 sched) t2 = true -> t1 = t2.
-Proof. exact sink_exclusion. Qed.
-Print Assumptions C02_sink_exclusion.
-Theorem C02_logger_fatal_flush_excluded : forall quota n, threads_below n quota ->
-  forall sched t1 t2, at_sink src_logger_fatal_sk (run src_logger_fatal_sk quota s0 sched) t1 = true ->
-                      at_sink src_logger_fatal_sk (run src_logger_fatal_sk quota s0 sched) t2 = true -> t1 = t2.
-Proof. exact (fun quota n => sink_exclusion src_logger_fatal_sk quota n (proj2 C02_src_logger_fatal_path_guarded)). Qed.
-Print Assumptions C02_logger_fatal_flush_excluded.
+(* 2. serialisable: the sink log of any complete schedule is the log of the sequential execution of whole messages
+   ([serial_log]: message k of the order gets sequence number k and is delivered k-th), the order being that in which the
+   critical sections on the common guarding mutex were entered (lock acquisition order) *)
+Theorem C02_serialisable : forall sched, let s := run skf quota s0 sched in finishedb n quota s = true ->
+  exists g, (forall t, shape g (skf t) = true) /\ log s = serial_log (acq_of g (acq s)).
+Proof. exact (serialisable skf quota n (fam_guard sks skf Hfam Hasg) Hn). Qed.
 
-(* 2. serialisable: the sink log of any complete schedule is the log of the sequential execution of whole
-   messages ([serial_log]: message k of the order gets sequence number k and is delivered k-th), the order
-   being that in which the critical sections on the guarding mutex were entered (lock acquisition order) *)
-Theorem C02_serialisable : forall sk quota n, bracketed sk = true -> threads_below n quota ->
-  forall sched, let s := run sk quota s0 sched in finishedb n quota s = true ->
-  exists g, shape g sk = true /\ log s = serial_log (acq_of g (acq s)).
-Proof. exact serialisable. Qed.
-Print Assumptions C02_serialisable.
-
-(* 2'. the same in schedule form: the sink log of ANY complete schedule equals the sink log of the sequential schedule
-   [whole_msgs] that runs whole messages one after the other in lock-acquisition order *)
-Theorem C02_serialisable_schedule : forall sk quota n, bracketed sk = true -> solo_ok sk = true -> threads_below n quota ->
-  forall sched, let s := run sk quota s0 sched in finishedb n quota s = true ->
-  exists g, shape g sk = true /\ log (run sk quota s0 (whole_msgs sk (acq_of g (acq s)))) = log s.
-Proof. exact serialisable_schedule. Qed.
-Print Assumptions C02_serialisable_schedule.
+(* 2'. schedule form: the sink log of ANY complete schedule equals the sink log of the sequential schedule [whole_msgs] that
+   runs whole messages one after the other in lock-acquisition order *)
+Theorem C02_serialisable_schedule : forallb solo_ok sks = true ->
+  forall sched, let s := run skf quota s0 sched in finishedb n quota s = true ->
+  exists g, (forall t, shape g (skf t) = true) /\ log (run skf quota s0 (whole_msgs skf (acq_of g (acq s)))) = log s.
+Proof. exact (fun So => serialisable_schedule skf quota n (fam_guard sks skf Hfam Hasg) (fam_solo sks skf So Hasg) Hn). Qed.
 
 (* 3a. every message is delivered exactly once (count of index i among the deliveries of thread t) ... *)
-Theorem C02_exactly_once : forall sk quota n, bracketed sk = true -> threads_below n quota ->
-  forall sched, let s := run sk quota s0 sched in finishedb n quota s = true ->
+Theorem C02_exactly_once : forall sched, let s := run skf quota s0 sched in finishedb n quota s = true ->
   forall t i, count_occ Nat.eq_dec (map e_idx (of_thread t (log s))) i = if Nat.ltb i (quota t) then 1 else 0.
-Proof. exact exactly_once. Qed.
-Print Assumptions C02_exactly_once.
+Proof. exact (exactly_once skf quota n (fam_guard sks skf Hfam Hasg) Hn). Qed.
 
 (* 3b. ... and each thread's messages reach the sink in the order that thread logged them *)
-Theorem C02_per_thread_order : forall sk quota n, bracketed sk = true -> threads_below n quota ->
-  forall sched, let s := run sk quota s0 sched in finishedb n quota s = true ->
+Theorem C02_per_thread_order : forall sched, let s := run skf quota s0 sched in finishedb n quota s = true ->
   forall t, map e_idx (of_thread t (log s)) = seq 0 (quota t).
-Proof. exact per_thread_order. Qed.
-Print Assumptions C02_per_thread_order.
+Proof. exact (per_thread_order skf quota n (fam_guard sks skf Hfam Hasg) Hn). Qed.
 
 (* 3c. sequence numbers are consecutive in delivery order — at every moment of every run *)
-Theorem C02_seq_consecutive : forall sk quota n, bracketed sk = true -> threads_below n quota ->
-  forall sched, let s := run sk quota s0 sched in map e_seq (log s) = seq 0 (length (log s)).
-Proof. exact seq_consecutive. Qed.
-Print Assumptions C02_seq_consecutive.
+Theorem C02_seq_consecutive : forall sched, let s := run skf quota s0 sched in map e_seq (log s) = seq 0 (length (log s)).
+Proof. exact (seq_consecutive skf quota n (fam_guard sks skf Hfam Hasg) Hn). Qed.
 
-(* 3d. no update of the stateful handler is lost: whenever nobody is inside the pipeline the counter
-   (two-step read/write in the model) equals the number of deliveries *)
-Theorem C02_no_lost_update : forall sk quota n, bracketed sk = true -> threads_below n quota ->
-  forall sched, let s := run sk quota s0 sched in (forall t, inside s t = false) -> count s = length (log s).
-Proof. exact no_lost_update. Qed.
+(* 3d. no update of the stateful handler is lost: whenever nobody is inside the pipeline the counter (two-step read/write
+   in the model) equals the number of deliveries *)
+Theorem C02_no_lost_update : forall sched, let s := run skf quota s0 sched in
+  (forall t, inside s t = false) -> count s = length (log s).
+Proof. exact (no_lost_update skf quota n (fam_guard sks skf Hfam Hasg) Hn). Qed.
+
+(* tie to the recorded traces: every (prefix of a) trace of the model is taken by the acceptor, the sink log is its
+   deliveries, and a complete run's trace is accepted — so a recorded trace that the acceptor rejects is not a trace of any
+   bracketed family under any assignment and schedule *)
+Theorem C02_model_traces_accepted : forall sched, let s := run skf quota s0 sched in
+  (exists a, arun quota n a0 (evs s) = Some a) /\ log s = delivs (evs s) /\
+  (finishedb n quota s = true -> accept_conc quota n (evs s) = true).
+Proof. exact (trace_accepted skf quota n (fam_guard sks skf Hfam Hasg) Hn). Qed.
+
+(* conversely an accepted trace IS the event trace of a complete run of the model (the sequential schedule executing the
+   whole messages in delivery order): acceptor = set of complete model traces *)
+Theorem C02_accepted_is_model_trace : forallb solo_ok sks = true -> forall tr, accept_conc quota n tr = true ->
+  let s := run skf quota s0 (whole_msgs skf (map fst (delivs tr))) in evs s = tr /\ finishedb n quota s = true.
+Proof. exact (fun So tr => accepted_is_model_trace skf quota n tr (fam_guard sks skf Hfam Hasg) (fam_solo sks skf So Hasg)). Qed.
+
+(* 1'. if moreover every sink-touching instruction (pipeline run AND flush) of every member lies inside the critical section
+   of the common mutex, no two threads are ever at such an instruction at the same moment *)
+Theorem C02_sink_exclusion : guarded_family sks = true -> forall sched t1 t2,
+  at_sink skf (run skf quota s0 sched) t1 = true -> at_sink skf (run skf quota s0 sched) t2 = true -> t1 = t2.
+Proof. exact (fun G => sink_exclusion skf quota n (fam_sinks_guard sks skf G Hasg) Hn). Qed.
+End Family.
+Print Assumptions C02_mutual_exclusion.
+Print Assumptions C02_serialisable.
+Print Assumptions C02_serialisable_schedule.
+Print Assumptions C02_exactly_once.
+Print Assumptions C02_per_thread_order.
+Print Assumptions C02_seq_consecutive.
 Print Assumptions C02_no_lost_update.
+Print Assumptions C02_model_traces_accepted.
+Print Assumptions C02_accepted_is_model_trace.
+Print Assumptions C02_sink_exclusion.
+
+(* ------------------------------------------------------------------------------------------------------------------
+   (c) instances for the code of today *)
+(* any mix of Qt-macro callers (fatal or not) and direct process() callers on one installed synchronous Logger, and a bare
+   handler: pipeline runs exclude each other *)
+Theorem C02_src_any_mix_mutual_exclusion : forall skf quota n, (forall t, In (skf t) src_entry_points) -> threads_below n quota ->
+  forall sched t1 t2, inside (run skf quota s0 sched) t1 = true -> inside (run skf quota s0 sched) t2 = true -> t1 = t2.
+Proof. exact (fun skf quota n A => C02_mutual_exclusion src_entry_points skf quota n C02_src_entry_points_bracketed_family A). Qed.
+Print Assumptions C02_src_any_mix_mutual_exclusion.
+Theorem C02_src_any_mix_serialisable : forall skf quota n, (forall t, In (skf t) src_entry_points) -> threads_below n quota ->
+  forall sched, let s := run skf quota s0 sched in finishedb n quota s = true ->
+  exists g, (forall t, shape g (skf t) = true) /\ log s = serial_log (acq_of g (acq s)).
+Proof. exact (fun skf quota n A => C02_serialisable src_entry_points skf quota n C02_src_entry_points_bracketed_family A). Qed.
+Print Assumptions C02_src_any_mix_serialisable.
+(* macro callers only (fatal or not): send() and flush() of the sinks never overlap *)
+Theorem C02_src_macro_paths_sink_exclusion : forall skf quota n, (forall t, In (skf t) [src_logger_sk; src_logger_fatal_sk]) ->
+  threads_below n quota -> forall sched t1 t2,
+  at_sink skf (run skf quota s0 sched) t1 = true -> at_sink skf (run skf quota s0 sched) t2 = true -> t1 = t2.
+Proof.
+  exact (fun skf quota n A Hn => C02_sink_exclusion _ skf quota n A Hn C02_src_macro_paths_guarded_family).
+Qed.
+Print Assumptions C02_src_macro_paths_sink_exclusion.
+(* once (if ever) the whole family is guarded by one mutex, send()/flush() exclusion holds for every mix *)
+Theorem C02_src_any_mix_sink_exclusion_if_guarded : guarded_family src_entry_points = true ->
+  forall skf quota n, (forall t, In (skf t) src_entry_points) -> threads_below n quota -> forall sched t1 t2,
+  at_sink skf (run skf quota s0 sched) t1 = true -> at_sink skf (run skf quota s0 sched) t2 = true -> t1 = t2.
+Proof. exact (fun G skf quota n A Hn => C02_sink_exclusion _ skf quota n A Hn G). Qed.
+Print Assumptions C02_src_any_mix_sink_exclusion_if_guarded.
+
+(* REFUTED for the skeletons the code has today (written out; the check compares them with the translation in its static
+   report): a thread that calls the public process() directly (handler mutex M only) and a thread that logs a fatal message
+   through Qt's macros (flush() under the Logger mutex L only, M already released) do NOT exclude each other — thread 1 is
+   inside the pipeline (Sink::send) while thread 0 stands at flush() (Sink::flush), each holding a different mutex *)
+Definition today_direct : list instr := [Other; Lock M; Other; Work; Unlock M].
+Definition today_fatal_macro : list instr :=
+  [Other; Lock L; Other; Other; Other; Lock M; Other; Work; Unlock M; Other; Flush; Unlock L].
+Theorem C02_direct_call_vs_fatal_flush_refuted :
+  guarded_family [today_direct; today_fatal_macro] = false /\
+  exists sched,
+    let skf := fun t => match t with 0 => today_fatal_macro | _ => today_direct end in
+    let quota := fun t => if Nat.ltb t 2 then 1 else 0 in
+    let s := run skf quota s0 sched in
+    nth_error (skf 0) (pc (th s 0)) = Some Flush /\ owner s L = Some 0 /\
+    inside s 1 = true /\ owner s M = Some 1 /\
+    at_sink skf s 0 = true /\ at_sink skf s 1 = true.
+Proof. split; [vm_compute; reflexivity|]. exists (repeat 0 13 ++ repeat 1 4). vm_compute. repeat split; reflexivity. Qed.
+Print Assumptions C02_direct_call_vs_fatal_flush_refuted.
 
 (* 4. the locks are what makes this true: the same program with the lock steps erased loses an update
    (two threads, one message each: both read 0, both write 1, both deliver sequence number 0) *)
 Theorem C02_unlocked_refuted : exists sched,
   let quota := fun t => if Nat.ltb t 2 then 1 else 0 in
-  let s := run (erase_locks src_logger_sk) quota s0 sched in
+  let s := run (uni (erase_locks src_logger_sk)) quota s0 sched in
   finishedb 2 quota s = true /\ inside s 0 = false /\ inside s 1 = false /\
   length (log s) = 2 /\ count s = 1 /\ map e_seq (log s) = [0; 0].
 Proof. exists (flat_map (fun _ => [0; 1]) (seq 0 12)). vm_compute. repeat split; reflexivity. Qed.
 Print Assumptions C02_unlocked_refuted.
 
-(* tie to the recorded traces: every (prefix of a) trace of the model is taken by the acceptor, the sink log
-   is its deliveries, and a complete run's trace is accepted — so a recorded trace that the acceptor rejects
-   is not a trace of any bracketed skeleton under any schedule *)
-Theorem C02_model_traces_accepted : forall sk quota n, bracketed sk = true -> threads_below n quota ->
-  forall sched, let s := run sk quota s0 sched in
-  (exists a, arun quota n a0 (evs s) = Some a) /\ log s = delivs (evs s) /\
-  (finishedb n quota s = true -> accept_conc quota n (evs s) = true).
-Proof. exact trace_accepted. Qed.
-Print Assumptions C02_model_traces_accepted.
-
-(* conversely an accepted trace IS the event trace of a complete run of the model (the sequential schedule executing the
-   whole messages in delivery order): acceptor = set of complete model traces *)
-Theorem C02_accepted_is_model_trace : forall sk quota n tr, bracketed sk = true -> solo_ok sk = true ->
-  accept_conc quota n tr = true ->
-  let s := run sk quota s0 (whole_msgs sk (map fst (delivs tr))) in evs s = tr /\ finishedb n quota s = true.
-Proof. exact accepted_is_model_trace. Qed.
-Print Assumptions C02_accepted_is_model_trace.
-
-(* ... and an accepted trace has the trace-level form of the property: strict alternation enter/deliver
-   (nobody overlaps), consecutive sequence numbers, every thread's messages exactly once in order *)
+(* ------------------------------------------------------------------------------------------------------------------
+   (d) accepted traces have the trace-level form of the property: strict alternation enter/deliver (nobody overlaps),
+   consecutive sequence numbers, every thread's messages exactly once in order *)
 Theorem C02_accepted_trace_no_overlap : forall quota n tr, accept_conc quota n tr = true -> tr = paired (delivs tr).
 Proof. exact accept_alternates. Qed.
 Print Assumptions C02_accepted_trace_no_overlap.
@@ -146,49 +200,33 @@ Theorem C02_accept_implies_oracle : forall quota n tr, accept_conc quota n tr = 
 Proof. exact accept_implies_oracle. Qed.
 Print Assumptions C02_accept_implies_oracle.
 
-(* 5. instances for the code of today: an installed Logger, and a bare OwnThreadHandler<Pipeline> in
-   synchronous mode (only lock M) *)
-Theorem C02_logger_mutual_exclusion : forall quota n, threads_below n quota ->
-  forall sched t1 t2, inside (run src_logger_sk quota s0 sched) t1 = true ->
-                      inside (run src_logger_sk quota s0 sched) t2 = true -> t1 = t2.
-Proof. exact (fun quota n => mutual_exclusion src_logger_sk quota n C02_src_logger_bracketed). Qed.
-Print Assumptions C02_logger_mutual_exclusion.
-Theorem C02_bare_handler_mutual_exclusion : forall quota n, threads_below n quota ->
-  forall sched t1 t2, inside (run src_handler_sk quota s0 sched) t1 = true ->
-                      inside (run src_handler_sk quota s0 sched) t2 = true -> t1 = t2.
-Proof. exact (fun quota n => mutual_exclusion src_handler_sk quota n C02_src_handler_bracketed). Qed.
-Print Assumptions C02_bare_handler_mutual_exclusion.
-Theorem C02_bare_handler_serialisable : forall quota n, threads_below n quota ->
-  forall sched, let s := run src_handler_sk quota s0 sched in finishedb n quota s = true ->
-  exists g, shape g src_handler_sk = true /\ log s = serial_log (acq_of g (acq s)).
-Proof. exact (fun quota n => serialisable src_handler_sk quota n C02_src_handler_bracketed). Qed.
-Print Assumptions C02_bare_handler_serialisable.
-
-(* the predicate discriminates: dropping either lock of a Logger is harmless, releasing before the sinks,
-   locking per handler or no lock at all is not *)
-Example C02_bracketed_discriminates :
+(* the predicates discriminate: dropping either lock of a Logger is harmless, releasing before the sinks, locking per
+   handler or no lock at all is not; entry points on different mutexes do not form a family *)
+Example C02_predicates_discriminate :
   bracketed [Other; Lock M; Work; Unlock M] = true /\ bracketed [Lock L; Other; Work; Unlock L] = true /\
   bracketed [Lock L; Other; Unlock L; Work] = false /\ bracketed [Lock M; Work; Unlock M; Lock M; Work; Unlock M] = false /\
   bracketed [Other; Work] = false /\ bracketed (erase_locks src_logger_sk) = false /\
   sinks_guarded [Lock L; Work; Unlock L; Flush] = false /\ sinks_guarded [Lock L; Work; Flush; Unlock L] = true /\
-  share_guard [Lock L; Work; Unlock L] [Lock M; Work; Unlock M] = false.
+  bracketed_family [[Lock L; Work; Unlock L]; [Lock M; Work; Unlock M]] = false /\
+  bracketed_family [[Lock L; Lock M; Work; Unlock M; Unlock L]; [Lock M; Work; Unlock M]] = true.
 Proof. vm_compute. repeat split; reflexivity. Qed.
 
-(* non-vacuity: three threads (2, 1 and 2 messages) through today's Logger skeleton under an unfair interleaved
-   schedule: the run completes, the trace is accepted, and the log is the serial log in lock order *)
+(* non-vacuity: three threads (2, 1 and 2 messages) through today's Logger skeleton under an unfair interleaved schedule:
+   the run completes, the trace is accepted, and the log is the serial log in lock order *)
 Example C02_nonvacuous :
   let quota := fun t => match t with 0 => 2 | 1 => 1 | 2 => 2 | _ => 0 end in
   let sk := [Other; Lock L; Other; Other; Other; Lock M; Other; Work; Unlock M; Other; Other; Unlock L] in
-  let s := run sk quota s0 (flat_map (fun _ => [2; 0; 0; 1; 2; 1; 1; 0; 2; 2]) (seq 0 40)) in
+  let s := run (uni sk) quota s0 (flat_map (fun _ => [2; 0; 0; 1; 2; 1; 1; 0; 2; 2]) (seq 0 40)) in
   bracketed sk = true /\ finishedb 3 quota s = true /\ accept_conc quota 3 (evs s) = true /\
   log s = [(0, 0, 0); (2, 0, 1); (0, 1, 2); (1, 0, 3); (2, 1, 4)] /\
   log s = serial_log (acq_of L (acq s)) /\ log s = serial_log (acq_of M (acq s)).
 Proof. vm_compute. repeat split; reflexivity. Qed.
-(* ... and the translated skeletons themselves run to completion with an accepted trace *)
-Example C02_nonvacuous_src :
+(* ... and a run MIXING the three translated entry points (thread 0 macro, thread 1 direct process(), thread 2 fatal macro)
+   completes with an accepted trace *)
+Example C02_nonvacuous_src_mixed :
   let quota := fun t => match t with 0 => 2 | 1 => 1 | 2 => 2 | _ => 0 end in
-  let s := run src_logger_sk quota s0 (flat_map (fun _ => [2; 0; 0; 1; 2; 1; 1; 0; 2; 2]) (seq 0 40)) in
-  let s' := run src_handler_sk quota s0 (flat_map (fun _ => [2; 0; 0; 1; 2; 1; 1; 0; 2; 2]) (seq 0 40)) in
+  let skf := fun t => match t with 0 => src_logger_sk | 1 => src_handler_sk | _ => src_logger_fatal_sk end in
+  let s := run skf quota s0 (flat_map (fun _ => [2; 0; 0; 1; 2; 1; 1; 0; 2; 2]) (seq 0 40)) in
   finishedb 3 quota s = true /\ accept_conc quota 3 (evs s) = true /\ length (log s) = 5 /\
-  finishedb 3 quota s' = true /\ accept_conc quota 3 (evs s') = true /\ length (log s') = 5.
+  log s = serial_log (acq_of M (acq s)).
 Proof. vm_compute. repeat split; reflexivity. Qed.
